@@ -23,7 +23,7 @@ PROPS = {
         batches=[
             pipe('fault-free', 1200, 60000, faults=False, events=14, max_total=8, max_pkgs=4,
                  mix=dict(run=6, rerun_executing=1, add_target=1, run_all=2, run_empty=0)),
-            pipe('faults', 700, 40000, faults=True, net=True, events=14, max_total=8, max_pkgs=4),
+            pipe('faults', 700, 40000, faults=True, net=True, events=14, max_total=8, max_pkgs=4, self_refs=True),
             pipe('reload-history', 500, 20000, faults=False, events=12, max_total=8, max_pkgs=4, mix=MIX_UPDATE, record_on_run=True),
         ],
         wall=dict(quick=100, thorough=1500),
@@ -33,7 +33,7 @@ PROPS = {
         probes=['reply_with_new_values', 'quiesced'],
         batches=[
             pipe('fault-free', 1200, 60000, faults=False, events=10, outcome=dict(success=8, failure=1, invalid=1)),
-            pipe('faults', 700, 40000, faults=True, net=True, events=10),
+            pipe('faults', 700, 40000, faults=True, net=True, events=10, self_refs=True),
             pipe('reload-history', 500, 20000, faults=False, events=12, mix=MIX_UPDATE, record_on_run=True),
         ],
         wall=dict(quick=100, thorough=1500),
@@ -42,9 +42,9 @@ PROPS = {
         level='exploration', rule=PIPE_RULE, components=PIPE_COMPONENTS, level_text=LT, level_note=LN,
         probes=['quiesced', 'request_with_no_targets', 'reply_failure', 'reply_invalid', 'failure_withdrew_dependent'],
         batches=[
-            pipe('fault-free', 1200, 60000, faults=False, events=8, outcome=dict(success=3, failure=2, invalid=2),
+            pipe('fault-free', 1200, 60000, faults=False, events=8, outcome=dict(success=3, failure=2, invalid=2), self_refs=True,
                  mix=dict(run=6, rerun_executing=1, add_target=1, run_all=1, run_empty=2)),
-            pipe('faults', 700, 40000, faults=True, net=True, events=8, outcome=dict(success=3, failure=2, invalid=2),
+            pipe('faults', 700, 40000, faults=True, net=True, events=8, outcome=dict(success=3, failure=2, invalid=2), self_refs=True,
                  mix=dict(run=6, rerun_executing=1, add_target=1, run_all=1, run_empty=2)),
             pipe('reload-history', 500, 20000, faults=False, events=10, outcome=dict(success=3, failure=2, invalid=2), mix=MIX_UPDATE, record_on_run=True),
         ],
@@ -54,8 +54,8 @@ PROPS = {
         level='exploration', rule=PIPE_RULE, components=PIPE_COMPONENTS, level_text=LT, level_note=LN,
         probes=['reply_failure', 'reply_invalid', 'failure_withdrew_dependent'],
         batches=[
-            pipe('fault-free', 1200, 60000, faults=False, events=14, outcome=dict(success=3, failure=3, invalid=3)),
-            pipe('faults', 700, 40000, faults=True, net=True, events=14, outcome=dict(success=3, failure=3, invalid=3)),
+            pipe('fault-free', 1200, 60000, faults=False, events=14, outcome=dict(success=3, failure=3, invalid=3), self_refs=True),
+            pipe('faults', 700, 40000, faults=True, net=True, events=14, outcome=dict(success=3, failure=3, invalid=3), self_refs=True),
             pipe('reload-history', 500, 20000, faults=False, events=12, outcome=dict(success=3, failure=3, invalid=3), mix=MIX_UPDATE, record_on_run=True),
         ],
         wall=dict(quick=100, thorough=1500),
@@ -76,7 +76,7 @@ PROPS = {
         probes=['rerequest_while_doing', 'reply_with_new_values', 'handed'],
         batches=[
             pipe('fault-free', 1200, 60000, faults=False),
-            pipe('faults', 700, 40000, faults=True, net=True),
+            pipe('faults', 700, 40000, faults=True, net=True, self_refs=True),
             pipe('reload-history', 500, 20000, faults=False, events=12, mix=MIX_UPDATE, record_on_run=True),
         ],
         wall=dict(quick=100, thorough=1200),
